@@ -232,6 +232,7 @@ type World struct {
 	Hooks []func(ev *Event) // oracles observing kernel events while the run proceeds
 	// Callbacks are actions of the run that a trigger can invoke (act callsleep).
 	Callbacks map[string]func()
+	nSymlinks int
 	// OnPipeWrite observes every write to a pipe before it is queued (raw
 	// stdout/stderr taps); it runs on the writer's goroutine.
 	OnPipeWrite func(pipe string, p *Proc, data []byte)
